@@ -5,13 +5,27 @@
    "nothing remains".  [good] packages exactly that. *)
 From Coq Require Import ZArith List Bool.
 From V Require Import Model.Num Model.Status Model.Sim Model.SimLoop Model.Examples
-  Proofs.SimPlaceP Proofs.SimPlaceP2 Proofs.SimTradedP Proofs.SimBucketsP.
+  Proofs.SimPlaceP Proofs.SimPlaceP2 Proofs.SimTradedP Proofs.SimBucketsP Proofs.SimLiftP.
 Open Scope Z_scope.
 
 Theorem C04_good_is_conserved : forall o, good o ->
   so_size o = so_matched o + remaining o + so_cancelled o + so_lapsed o + so_voided o /\ 0 <= so_matched o /\ 0 <= remaining o.
 Proof. exact good_conserved. Qed.
 Print Assumptions C04_good_is_conserved.
+
+(* LIFT to the matching loop of a market update: for ANY number of orders and strategies (isolation on), any traded volume with non-negative
+   amounts, a book that does not reconcile starting prices: after the whole matching of the update every limit order of the market is still
+   consistent (ok_order: positive fragments summing to the matched size, remaining >= 0, queue position >= 0); the completion sweep and a
+   simulated cancel keep it so.  (Arrival fills, starting-price conversion and runner removal are covered by the per-primitive theorems below;
+   their lift over whole runs is checked on the implementation, not proved.) *)
+Theorem C04_matching_keeps_orders_consistent : forall tb cf b ans os, cf_isolation cf = true -> b_bsp_rec b = false ->
+  Forall ok_order os -> Forall (fun a => ok_traded (an_traded a)) ans -> Forall ok_order (process_sim_orders tb cf b ans os).
+Proof. exact process_sim_orders_ok. Qed.
+Theorem C04_sweep_keeps_orders_consistent : forall cf now os, Forall ok_order os -> Forall ok_order (completion_sweep cf now os).
+Proof. exact completion_sweep_ok. Qed.
+Theorem C04_cancel_keeps_order_consistent : forall b o, ok_order o -> (match so_red o with Some x => 0 <= x | None => True end) -> ok_order (fst (fst (sim_cancel b o))).
+Proof. exact sim_cancel_ok. Qed.
+Print Assumptions C04_matching_keeps_orders_consistent.
 
 (* cancel - full, partial, or larger than the remainder: moves min(reduction, remaining) into 'cancelled' *)
 Theorem C04_cancel : forall b o, good o -> (match so_red o with Some x => 0 <= x | None => True end) ->
